@@ -27,8 +27,10 @@ MonApprovalStable(e) ==
   \A b \in DOMAIN e.pre.buf :
     e.pre.buf[b].st = "approved" /\ e.post.buf[b].st = "approved" =>
       e.post.buf[b].approver = e.pre.buf[b].approver /\ e.post.buf[b].at = e.pre.buf[b].at
-(* the delay can only increase *)
-MonDelay(e) == e.post.delay >= e.pre.delay
+(* the delay can only increase.  Delays beyond TLC's integers (up to u32::MAX) are judged in events
+   "increase_delay_big": delays logged as decimal strings (equality only), cmp = sign(post - pre) *)
+IsBig(e) == e.op = "increase_delay_big"
+MonDelay(e) == IF IsBig(e) THEN e.cmp >= 0 ELSE e.post.delay >= e.pre.delay
 (* executed or cancelled buffers cannot run again (nor be approved) *)
 MonNoRerun(e) ==
   /\ e.op \in {"execute", "approve", "cancel"} /\ e.pre.buf[e.b].st \in {"executed", "cancelled", "none"} => ~e.ok
@@ -46,6 +48,8 @@ MonSigner(e) ==
 (* a failed instruction changes nothing *)
 MonFailed(e) == ~e.ok => e.post = e.pre
 
+(* big increase: fits = "pre + delta <= u32::MAX and delta # 0", exact = "post = pre + delta" *)
 Conforms(e) ==
-  LET r == Apply(e.pre, [op |-> e.op, b |-> e.b, x |-> e.x]) IN e.ok = r.ok /\ e.post = r.s
+  IF IsBig(e) THEN e.ok = e.fits /\ (e.ok => e.exact /\ e.cmp = 1) /\ (~e.ok => e.post = e.pre)
+  ELSE LET r == Apply(e.pre, [op |-> e.op, b |-> e.b, x |-> e.x]) IN e.ok = r.ok /\ e.post = r.s
 =============================================================================
